@@ -559,6 +559,19 @@ func (e *Exec) specCall(c *ast.CallExpr, env *SpecEnv) (Val, types.Type) {
 			}
 			e.st = saved
 			return v, t
+		case "closure":
+			// closure(k): the function value the k-th function literal of the function under contract evaluated to
+			// (`callsite Dial#0 requires cfg.Verify == closure(0)`: the hook installed is this literal, whose body
+			// has its own `closure k` contract)
+			if len(c.Args) == 1 {
+				if lit, ok := c.Args[0].(*ast.BasicLit); ok {
+					if v, found := e.st.vars["closureval:"+lit.Value]; found {
+						return v, tInt
+					}
+					return iv(e.fresh("noclosure", SInt)), tInt
+				}
+			}
+			return e.specErr("closure(k) expected")
 		case "cur":
 			// cur(e) inside prev(...): e is evaluated in the current state (prev(valOf(cm, cur(cmd.peer))): the total, at the
 			// start of the iteration, of the peer named by the command received during the iteration)
